@@ -1,5 +1,5 @@
 import IdspModel.Lemmas.Atan2Tab
-/-! `atani` table, chunk 7 of 10: quotient fields 57344 … 65536 (complete range, evaluated by the kernel). -/
+/-! `atani` table, chunk 7 of 8: quotient fields 57344 … 65536 (complete range, evaluated by the kernel). -/
 namespace Idsp
 
 theorem atanTab7 : atanRun 57344 8193 = true := by decide +kernel
